@@ -283,7 +283,13 @@ META["C09"] = dict(
          "or the rescan of a span log with deleted spans and an advanced first file), C09_translate_preserves_contents_gc (primary GC "
          "too, under GcCountersOK; no D11 premise needed: the translation follows a clean Close), C09_translate_keeps_gc_invariant (the "
          "re-bucketed store satisfies the GC invariant, so all of C04 applies to it), refusals and same-bits for the same histories. "
-         "Known finding D13 (no atomic swap) concerns crashes inside the translation, outside these theorems.",
+         "Crashes inside the re-bucketing (Sth/Props/C09Crash.lean over the step model translateSteps of Sth/Model/CrashImageOpen.lean): "
+         "C09_translate_crash_safe_steps (before the first file move the directory IS the cleanly closed one; from the arrival of the new "
+         "header on, recovery gives exactly what it gives on the finished translation; every other step is in the window), "
+         "C09_d13_window (the window = old files/header moved out ... new files moved in, before the new header), decide witnesses of "
+         "what the next open does there (refused while the old header is still present, ZERO keys once it is gone) = known finding D13, "
+         "and C09_d13_recogniser_covers_window / _extra_step, which compared the harness's recogniser with the window and found it one "
+         "step too wide (corrected: header absent or still with the old bit size).",
     note=SEQ_NOTE,
 )
 
@@ -305,8 +311,12 @@ META["C10"] = dict(
          "directory and after every later run). Unmappable entries (Sth/Props/C10c.lean): C10_upgrade_contents_bad (multi-chunk stores with entries whose offset lies "
          "beyond the legacy primary: for EVERY flush order of the removal pool the upgraded store refines the map with those keys absent, "
          "fsck clean, also after reopen), C10_upgrade_bad_single (single-chunk stores: nothing is remapped, the entries stay, every "
-         "well-formed key still reads its legacy value or absent; fsck clean when exactly those offsets are ignored). Out of the theorems' "
-         "scope, handled by the model and the runs: torn tails, a bit size different from the legacy header's. Resume: C10_upgrade_resume_partial (interrupted after the primary phase or "
+         "well-formed key still reads its legacy value or absent; fsck clean when exactly those offsets are ignored). Torn tails (Sth/Props/C10d.lean): C10_torn_primary (for EVERY torn tail of the legacy primary the upgrading open is "
+         "literally the one of the store with the torn record removed whole - repaired code, defect D31 found by this model: the size "
+         "prefix of the torn record used to be copied and later records were destroyed by primary GC; C10_D31_regression evaluates the "
+         "witness history on the repaired model), C10_torn_index_refused / _repaired (a torn legacy INDEX is refused, after the primary "
+         "has already been converted: observation recorded in DESIGN.md). Bit size different from the legacy header's "
+         "(Sth/Props/C10e.lean): C10_upgrade_translate(_bad) compose the upgrade with the re-bucketing of C09. Resume: C10_upgrade_resume_partial (interrupted after the primary phase or "
          "after the index is chunked - old file already removed or still present - reopening ends in the same memory state and the same "
          "directory file by file), C10_completed_opens_plainly; the full 'interrupted at ANY step' claim is FALSE in the code = known "
          "finding D14, documented in the model by decide over the executable step list upgradeSteps: C10_D14_marker_window (the only "
